@@ -47,13 +47,14 @@ class VC:
         return self.verdict == "sat"
 
 
-def build_smt2(vc: VC, congruence: bool = True) -> str:
+def build_smt2(vc: VC, congruence: bool = True, max_fact_size: int | None = None) -> str:
     """SMT-LIB text of  facts /\\ side axioms /\\ denominators non-zero /\\ not goal.
     Uninterpreted applications are Ackermann-reduced to constants; with ``congruence`` the reduction
     is exact (equisatisfiable), without it the query is weaker (unsat is still sound, sat is not)."""
     enc = Encoder(ack=True)
     s = z3.Solver()
-    facts = [enc.boolean(f) for f in vc.facts]
+    chosen = vc.facts if max_fact_size is None else [f for f in vc.facts if sp.count_ops(f) <= max_fact_size]
+    facts = [enc.boolean(f) for f in chosen]
     goal = None if vc.expect == "sat" else enc.boolean(vc.goal)
     for f in facts:
         s.add(f)
@@ -68,9 +69,10 @@ def build_smt2(vc: VC, congruence: bool = True) -> str:
     if congruence:
         for c in enc.congruence():
             s.add(c)
-    vc.n_dens = len(enc.dens)
-    vc.meta["apps"] = enc.app_names()
-    vc.meta["index_consts"] = enc.index_constants()
+    if max_fact_size is None and congruence:
+        vc.n_dens = len(enc.dens)
+        vc.meta["apps"] = enc.app_names()
+        vc.meta["index_consts"] = enc.index_constants()
     return s.to_smt2()
 
 
@@ -183,12 +185,13 @@ def _run_cli(cmd: list, smt2: str, timeout_s: float):
 def _worker(args):
     name, fast, smt2, timeout_ms, second_opinion, index_consts = args
     secs0 = 0.0
-    if fast is not None:
-        # weaker query (no congruence): only an unsat answer is used
+    for label, text in (fast or []):
+        # weaker queries (small facts only / no congruence): only an unsat answer is used
         try:
-            verdict, _, secs0, _ = _run_z3_api(fast, min(timeout_ms, 5000))
+            verdict, _, s0, _ = _run_z3_api(text, min(timeout_ms, 4000))
+            secs0 += s0
             if verdict == "unsat" and not second_opinion:
-                return name, "unsat", "z3-5.1", {}, secs0, "without-congruence"
+                return name, "unsat", "z3-5.1", {}, secs0, label
         except z3.Z3Exception:
             pass
     try:
@@ -251,9 +254,13 @@ def discharge(vcs: list, second_opinion: bool = False, timeout_ms: int | None = 
         except EncodeError as exc:
             vc.verdict, vc.detail = "unknown", f"encode: {exc}"
             continue
-        fast = None
-        if vc.expect == "valid" and vc.meta.get("apps"):
-            fast = build_smt2(vc, congruence=False)
+        fast = []
+        if vc.expect == "valid":
+            sizes = sorted(sp.count_ops(f) for f in vc.facts)
+            if sizes and sizes[-1] > 60:
+                fast.append(("small-facts-only", build_smt2(vc, congruence=False, max_fact_size=60)))
+            if vc.meta.get("apps"):
+                fast.append(("without-congruence", build_smt2(vc, congruence=False)))
         jobs.append((vc.name, fast, vc.smt2, tmo, second_opinion, vc.meta.get("index_consts", [])))
     byname = {vc.name: vc for vc in vcs}
     if len(byname) != len(vcs):
